@@ -12,8 +12,11 @@ from .c08 import spectrum
 
 THEOREMS = '''fourElementTraces_entries cumulant_general_eq_commutators cumulant_general_model
 cumulant_single_qubit_eq_general shortcut_needs_pauli_basis second_order_antisymmetric
-first_order_symmetric K_row_col_zero cumulant_real '''.split()
-LEAN_MODULES = ['FFVerif.Props.C09']
+first_order_symmetric K_row_col_zero cumulant_real
+pow_row_col_zero sum_row_col_zero exp_row_col_unit K_row_col_zero_opt etm_trace_preserving_unital
+etm_sum_trace_preserving_unital etm_real_sum_trace_preserving_unital trace_preserving_iff_row
+unital_iff_col '''.split()
+LEAN_MODULES = ['FFVerif.Props.C09', 'FFVerif.Props.C09Exp']
 PINS = ['pinBasisArrayFinalize', 'pinFourElementTraces', 'pinErrorTransferMatrix', 'C09_cumulant_source_shape']
 GEN_SITES = ['einsum:numeric_calculate_cumulant_function_', 'einsum:basis_Basis_four_element_traces_',
              'const:numeric.calculate_cumulant_function']
@@ -109,7 +112,10 @@ def check_cumulant(ctx, case):
     for pr in pairs:
         ref = formula_K(C, G[pr], D[pr] if second else None)
         worst = max(worst, np.max(np.abs(K[pr] - ref)))
-    sc = max(np.max(np.abs(K)), 1e-12)
+    # scale of the comparison: the cumulant function itself, or — when the noise operators have
+    # (almost) no component in an incomplete basis and K is rounding noise — the decay amplitudes;
+    # values below 1e-6 are not resolved relative to each other (absolute accuracy 1e-15)
+    sc = max(np.max(np.abs(K)), np.max(np.abs(G)), 1e-6)
     if not worst/sc <= 1e-9:
         probs.append(f'cumulant function differs from the documented trace formula by {worst/sc:.3g}')
     # the same K from precomputed decay amplitudes / frequency shifts, twice from the same arrays
@@ -147,11 +153,12 @@ def check_cumulant(ctx, case):
         probs.append('error transfer matrix from a precomputed cumulant function differs / modified it')
     tl = bool(p.basis.istraceless)
     if tl and len(C) == d*d:
-        i0 = 0
+        # the element proportional to the identity (any sign, any position)
+        i0 = int(np.argmax(np.abs(np.einsum('kaa->k', C))))
         if np.max(np.abs(U[i0, :] - np.eye(len(C))[i0])) > 1e-9:
-            probs.append('error transfer matrix not trace preserving (row 0)')
+            probs.append(f'error transfer matrix not trace preserving (row {i0})')
         if np.max(np.abs(U[:, i0] - np.eye(len(C))[i0])) > 1e-9:
-            probs.append('error transfer matrix not unital (column 0)')
+            probs.append(f'error transfer matrix not unital (column {i0})')
         try:
             if not so.liouville_is_CP(np.asarray(U).real, p.basis, atol=1e-9):
                 probs.append('error transfer matrix not completely positive')
